@@ -195,6 +195,7 @@ func (p *ProjectRunner) Run() error {
 		p.shutDownMutex.Unlock()
 		p.startMutex.Unlock()
 	}
+	verifYield("Run.loopDone", "")
 	p.startUpFinished()
 	p.waitForProcesses()
 	log.Info().Msg("Project completed")
